@@ -486,6 +486,14 @@ impl<'a> Gen<'a> {
                         format!("{name}({args});")
                     }
                     4 if dvar.is_some() => format!("{name}(x := {}, go := {}, y => {});", self.expr(sc, Ty::DInt, 1), self.expr(sc, Ty::Bool, 1), dvar.clone().unwrap_or_default()),
+                    5 => {
+                        // two outputs bound to one variable: the later parameter (declaration order) wins
+                        let last = sc.vars.iter().rev().find(|v| v.ty == Ty::DInt).map(|v| v.name.clone());
+                        match last {
+                            Some(d) => format!("{name}(x := {}, go := {}, y => {d}, z => {d});", self.expr(sc, Ty::DInt, 1), self.expr(sc, Ty::Bool, 1)),
+                            None => format!("{name}();"),
+                        }
+                    }
                     _ => format!("{name}(x := {}, go := {});", self.expr(sc, Ty::DInt, 1), self.expr(sc, Ty::Bool, 1)),
                 };
                 match sc.vars.iter().find(|v| v.ty == Ty::DInt) {
@@ -701,7 +709,7 @@ pub fn gen_project(r: &mut Rng, knobs: Knobs, size: (usize, usize, usize)) -> Js
         let has_en = g.r.chance(1, 2);
         fb_en.push(has_en);
         let (en_in, eno_out) = if has_en { ("  EN : BOOL;\n", "  ENO : BOOL;\n") } else { ("", "") };
-        let mut header = format!("FUNCTION_BLOCK {name}\nVAR_INPUT\n{en_in}  x : DINT;\n  go : BOOL;\nEND_VAR\nVAR_OUTPUT\n{eno_out}  y : DINT;\nEND_VAR\nVAR\n");
+        let mut header = format!("FUNCTION_BLOCK {name}\nVAR_INPUT\n{en_in}  x : DINT;\n  go : BOOL;\nEND_VAR\nVAR_OUTPUT\n{eno_out}  y : DINT;\n  z : DINT := 7;\nEND_VAR\nVAR\n");
         let (vars, text) = { let n_ = g.r.usize(1, 4); decl_vars(&mut g, "m", n_, true) };
         header.push_str(&text);
         header.push_str("  k0 : DINT;\n  k1 : INT;\n  tm : TON;\nEND_VAR\n");
@@ -714,6 +722,7 @@ pub fn gen_project(r: &mut Rng, knobs: Knobs, size: (usize, usize, usize)) -> Js
             sc.ro.push(Var { name: "tq".into(), ty: Ty::DInt });
         }
         sc.vars.push(Var { name: "y".into(), ty: Ty::DInt });
+        sc.vars.push(Var { name: "z".into(), ty: Ty::DInt });
         sc.ro.push(Var { name: "x".into(), ty: Ty::DInt });
         sc.ro.push(Var { name: "go".into(), ty: Ty::Bool });
         sc.counters = vec!["k0:DINT".into(), "k1:INT".into()];
